@@ -383,6 +383,21 @@ func TestC18Duplicate(t *testing.T) {
 		b0 := f.ds.Snapshot()[key]
 		nev := len(f.sub.For(chid))
 		nnet, ntp := f.net.Len(), f.tp.Len()
+		// the validator may judge the repeated request differently (a replayed voucher): accept it again,
+		// reject it, or fail - the existing channel is none of its business in any case
+		dupVerdict := r.Intn(3)
+		if point != 4 {
+			f.val.SetOutcome(func(kind string, n int, ch datatransfer.ChannelID) (datatransfer.ValidationResult, error) {
+				switch dupVerdict {
+				case 1:
+					return datatransfer.ValidationResult{Accepted: false}, nil
+				case 2:
+					return datatransfer.ValidationResult{}, errors.New("validator unavailable")
+				}
+				return datatransfer.ValidationResult{Accepted: true}, nil
+			})
+			c.Count(fmt.Sprintf("duplicate_validator_verdict_%d", dupVerdict), 1)
+		}
 		resp, _ := deliver()
 		settle()
 		after := f.view(chid)
